@@ -659,15 +659,25 @@ func unNot(v ssa.Value) (ssa.Value, bool) {
 func cCmp(op token.Token, x, y VM) CondM {
 	return func(v ssa.Value) (bool, bool) {
 		inner, pos := unNot(v)
-		b, ok := inner.(*ssa.BinOp)
-		if !ok {
-			return false, false
-		}
 		type form struct {
 			op   token.Token
 			l, r ssa.Value
 		}
-		forms := []form{{b.Op, b.X, b.Y}, {swapOp(b.Op), b.Y, b.X}}
+		var forms []form
+		if c, k, _, isCut := cutPart(inner); isCut && k == 2 {
+			// found of strings.Cut(s, sep) is Index(s, sep) >= 0, with len(before) standing for the index
+			at := cutLenOf(c)
+			if at == nil {
+				return false, false
+			}
+			forms = []form{{token.GEQ, at, ssa.NewConst(constant.MakeInt64(0), types.Typ[types.Int])}, {token.LEQ, ssa.NewConst(constant.MakeInt64(0), types.Typ[types.Int]), at}}
+		} else {
+			b, ok := inner.(*ssa.BinOp)
+			if !ok {
+				return false, false
+			}
+			forms = []form{{b.Op, b.X, b.Y}, {swapOp(b.Op), b.Y, b.X}}
+		}
 		// x < e+1 is x <= e, x >= e+1 is x > e (integers); e+1 <= y is e < y, e+1 > y is e >= y
 		for _, f := range forms[:2] {
 			if e, ok := plusOne(f.r); ok {
@@ -707,7 +717,11 @@ func cCmp(op token.Token, x, y VM) CondM {
 			}
 			c2 := cst.Int64()
 			var lb *int64
-			if vCall("builtin.len", vAny)(f.l) || vCall("builtin.cap", vAny)(f.l) {
+			if _, _, isCutIdx := cutIndexValue(f.l); isCutIdx {
+				// stands for the result of Index: -1 where the separator is absent
+				z := int64(-1)
+				lb = &z
+			} else if vCall("builtin.len", vAny)(f.l) || vCall("builtin.cap", vAny)(f.l) {
 				z := int64(0)
 				lb = &z
 			} else if isSearchResult(f.l) {
